@@ -9,7 +9,7 @@ STATUS = ('Unknown', 'Synchronized', 'FreeRunning')
 
 
 def is_shm_write(name):
-    return name.endswith('ShmWrite::write') or name.endswith('as writer::ShmWrite>::write')
+    return name.endswith('ShmWrite::write') or name.endswith('ShmWrite>::write')
 
 
 def is_recv(name):
@@ -61,11 +61,14 @@ class UpdaterModel:
         for b in fb.bodies(common.DAEMON):
             if b.defkind == 'Closure' or not b.back_edges():
                 continue
-            if any(fn and is_recv(mir.callee_name(fn)) for _, _, fn in common.user_calls(b)):
+            # (the mailbox read may sit behind a private trait or helper: `ctx.next_message()`)
+            if any(fn and (is_recv(mir.callee_name(fn)) or any(common.reaches_call(fb, nb, is_recv) for nb in common.callee_bodies(fb, fn)))
+                   for _, _, fn in common.user_calls(b)):
                 cands.append(b)
         self.dispatch = None
         for b in cands:
-            eng = common.mk_engine(fb)
+            # private traits with one implementation are looked through; the segment write itself stays an opaque call
+            eng = common.mk_engine(fb, unique_impls=True, no_inline=lambda x: is_shm_write(x.path))
             paths = [p for p in eng.run(b) if p.kind != 'unreachable']
             if any(any(ef['kind'] == 'call' and is_shm_write(ef['callee']) for ef in p.effects) for p in paths):
                 self.dispatch = b
